@@ -1,7 +1,7 @@
 (* C14 — per-tag attribute rules are enforced exactly. *)
 From hls Require Import Base Float Lex Kinds Types Tags Line Keys Media Master.
 From hls.Generated Require Import Tables.
-From hls.Proofs Require Import Build C14 AttrOrder AttrTables.
+From hls.Proofs Require Import Build C14 AttrOrder AttrTables KeyIff.
 From Coq Require Import String.
 From Coq Require Import Permutation.
 Open Scope N_scope.
@@ -45,6 +45,18 @@ Check C14_key_invariant : forall s k, parse_decryption_key s = Ok k ->
   is_nil (trim (k_uri k)) = false
   /\ (match k_versions k with Some v => (1 <= List.length v <= 9)%nat | None => True end).
 Print Assumptions C14_key_invariant.
+
+(* keys as an IFF over every attribute text (any order, duplicates, unknown attributes): accepted exactly when every METHOD, IV
+   and KEYFORMATVERSIONS attribute is well formed (`key_pair_ok`: METHOD in the regenerated enum table, IV = 0x + 32 hex digits,
+   at most 9 versions below 256), some METHOD attribute is present and some URI attribute has a non-blank value *)
+Theorem C14_key_iff : forall s,
+  is_ok (parse_decryption_key s) =
+  forallb key_pair_ok (attr_pairs s) && existsb is_method (attr_pairs s) && existsb is_good_uri (attr_pairs s).
+Proof. exact key_text_accept_iff. Qed.
+Check C14_key_iff : forall s,
+  is_ok (parse_decryption_key s) =
+  forallb key_pair_ok (attr_pairs s) && existsb is_method (attr_pairs s) && existsb is_good_uri (attr_pairs s).
+Print Assumptions C14_key_iff.
 
 Theorem C14_iv_invariant : forall s bs, parse_iv s = Ok (IvAes bs) -> List.length bs = 16%nat.
 Proof. exact iv_invariant. Qed.
